@@ -92,7 +92,7 @@ def rand_ropts(rng, times, core=False, present=None):
             if any(f == fn for f, _ in o.T):
                 continue
             acts = []
-            for a in rng.sample(["depth", "time", "trace", "filter", "notrace", "trace_off", "trace_on", "hide", "caller"],
+            for a in rng.sample(["depth", "time", "time", "trace", "filter", "notrace", "trace_off", "trace_on", "hide", "caller"],
                                 rng.randint(1, 2)):
                 if a == "depth":
                     acts.append((a, rng.randint(0, 3)))
@@ -100,6 +100,7 @@ def rand_ropts(rng, times, core=False, present=None):
                     acts.append((a, rng.choice([1, 5, 10, 30])))
                 else:
                     acts.append((a, None))
+            acts = [x for k, x in enumerate(acts) if x[0] not in [y[0] for y in acts[:k]]]
             names = [a for a, _ in acts]
             if "filter" in names and "notrace" in names:
                 acts = [x for x in acts if x[0] != "notrace"]
@@ -838,7 +839,7 @@ def run(ctx):
     if jobs is None:
         C.violation(ctx, "build-h1", {"kind": "harness-build-failed", "log": log[-3000:]}, True)
     else:
-        for c in jobs:
+        for ji, c in enumerate(jobs):
             rc, rep, err = c["replayed"]
             evaluations += 1
             if c["role"] == "boundary":
@@ -854,7 +855,7 @@ def run(ctx):
             if replays < 5:
                 replays += 1
                 k = next((i for i, (a, b) in enumerate(zip(rep, c["recorded"])) if a != b), min(len(rep), len(c["recorded"])))
-                C.violation(ctx, "rvr%d" % c["forest"], {
+                C.violation(ctx, "rvr%d" % ji, {
                     "kind": "property-violated-on-implementation",
                     "what": "recording with the option and replaying the unfiltered recording with the option give different call trees",
                     "env": mcgen.to_env(c["opts"]), "hook": c["kind"], "script": c["script"][:300],
